@@ -6,6 +6,7 @@
 //!       they move / read the exploration context without running the program.  `exec` REWRITES `frame <k>` to
 //!       `frame <k> <ip|->` with the ip the debugger's unwinder reported for frame k (`-` = refused), which is what the
 //!       model focuses (its theorems hold for every ip); the oracle checks that ip against the reference call chain.
+//!       `bt` / `locals` are rewritten to `bt <ok|->` / `locals <ok|->` (did the unwinder / the DWARF evaluation succeed).
 //! Answer: `<outcome> p=<text bytes poked during the command, stably sorted by address>`; context-only commands answer
 //! `ctx <focus frame> <focus pc>` (the exploration context after the command) or `err`.
 use crate::live::*;
@@ -112,7 +113,7 @@ pub fn gen_requests(rng: &mut Rng, n: u64, out: &mut Out) -> Vec<String> {
                     req.push("C01 continue".into()); out.count("op.continue", 1);
                     if let Some(r) = sim.run(&p, false) { stop = r; }
                     if let (Some(j), true) = (stop, sim.stopped()) { gen_ctx_after_stop(rng, "C01", p.trace[j].chain.len(), &mut req, out); }
-                    else if rng.chance(1, 8) { req.push(format!("C01 {}", rng.pick(&["frame 0", "frame 1", "bt", "locals"]))); out.count("ctx.after_exit", 1); }
+                    else if rng.chance(1, 20) { req.push(format!("C01 {}", rng.pick(&["frame 0", "frame 1", "bt", "locals"]))); out.count("ctx.after_exit", 1); }
                 }
                 6..=7 => { let a = pick(rng, &set); req.push(format!("C01 break {a:x}")); if !set.contains(&a) { set.push(a); } if !sim.exited { sim.bset.insert(a); } out.count("op.break", 1); }
                 8 => { let a = pick(rng, &set); req.push(format!("C01 remove {a:x}")); set.retain(|x| *x != a); if !sim.exited { sim.bset.remove(&a); } out.count("op.remove", 1); }
@@ -206,15 +207,16 @@ pub fn ctx_command(id: &str, t: &[&str], live: &mut Live, base: u64, frames: Opt
                 }
             }
         }
-        ["bt"] => {
+        // whether the unwinder / the DWARF evaluation succeed at the focused pc is not C01's subject (C05, C06, C19): the outcome
+        // travels in the request (`ok` / `-`); what is compared is the exploration context afterwards
+        ["bt", ..] => {
             let pid = live.dbg.ecx().pid_on_focus();
-            let ans = match live.dbg.backtrace(pid) { Ok(_) => ctx_answer(live, base), Err(_) => "err".into() };
-            Some((format!("{id} bt"), ans, fails))
+            let ok = live.dbg.backtrace(pid).is_ok();
+            Some((format!("{id} bt {}", if ok { "ok" } else { "-" }), if ok { ctx_answer(live, base) } else { "err".into() }, fails))
         }
-        ["locals"] => {
-            let ok = live.dbg.read_local_variables().map(|v| v.len());
-            let ans = match ok { Ok(_) => ctx_answer(live, base), Err(_) => "err".into() };
-            Some((format!("{id} locals"), ans, fails))
+        ["locals", ..] => {
+            let ok = live.dbg.read_local_variables().map(|v| v.len()).is_ok();
+            Some((format!("{id} locals {}", if ok { "ok" } else { "-" }), if ok { ctx_answer(live, base) } else { "err".into() }, fails))
         }
         _ => None,
     }
